@@ -242,7 +242,7 @@ theorem C12_net_value_exact {p : Portfolio} {c : Supply} {d : Debt} {cover : Rat
 theorem C12_wallet_untouched (cx : NumCtx) (acc : Account) : (update cx acc).1.wallet = acc.wallet := rfl
 
 /-! ### non-vacuity: a concrete step (10 WETH at index 2 against 8400 USDC, WETH at 1000 USD: HF = 0.98) -/
-section example_
+namespace AaveRisk
 def exRowW : Row := { liqIndex := 2, borIndex := 2, price := 1000, ltv := 8/10, lt := 825/1000, bonus := 5/100, canColl := true, canBorrow := true }
 def exRowU : Row := { liqIndex := 1, borIndex := 1, price := 1, ltv := 8/10, lt := 85/100, bonus := 4/100, canColl := true, canBorrow := true }
 def exC : Supply := { tok := "WETH", base := 5, coll := true, row := exRowW }
@@ -258,7 +258,7 @@ def exStepCheck : Bool :=
 
 example : exStepCheck = true := by decide +kernel
 
-example : exP.WF := by
+theorem exP_wf : exP.WF := by
   refine ⟨?_, ?_, by decide, by decide⟩
   · intro s hs
     simp only [exP, List.mem_singleton] at hs
@@ -268,6 +268,16 @@ example : exP.WF := by
     simp only [exP, List.mem_singleton] at hs
     subst hs
     refine ⟨by decide +kernel, ⟨?_, ?_, ?_, ?_, ?_, ?_⟩⟩ <;> decide +kernel
-end example_
+
+/-- the hypotheses of the step theorems are satisfiable -/
+example : ∃ p' a, StepOk exP exC exD (exD.value NumCtx.exact) p' a := by
+  have hv : exD.value NumCtx.exact = 8400 := by decide +kernel
+  have hchk : exStepCheck = true := by decide +kernel
+  rw [hv]
+  cases h : doLiquidate NumCtx.exact exP exC exD 8400 with
+  | done p' a => exact ⟨p', a, exP_wf, by simp [exP], by simp [exP], by norm_num, h⟩
+  | rejected => unfold exStepCheck at hchk; rw [h] at hchk; cases hchk
+  | raised e q => unfold exStepCheck at hchk; rw [h] at hchk; cases hchk
+end AaveRisk
 
 end Demeter
